@@ -47,7 +47,8 @@ func body(s *simrt.Sim, tier string) {
 		} else {
 			cphID, cipher = 1, enc.CipherAESGCM
 		}
-		v := &enccommon.Vault{S: s}
+		v := &enccommon.Vault{S: s, Pad: enccommon.WrappedKeyPads[s.Choose(len(enccommon.WrappedKeyPads), "wfkpad")]}
+		desc += fmt.Sprintf(", wrapped key %d bytes", 32+v.Pad)
 		opts.WrapKeyFn = v.Wrap
 		src := &simio.Reader{C: s, Data: pt, FailAt: -1}
 		enccommon.Chunking(s, src)
@@ -122,7 +123,8 @@ func body(s *simrt.Sim, tier string) {
 	}
 	// ---- (3) the reference implementation encrypts; the kit decrypts
 	variant := s.Choose(3, "manifestvariant")
-	doc, _, err := enccommon.RefDocument(s, pt, keyName, alg.ID, cphID, variant)
+	pad := enccommon.WrappedKeyPads[s.Choose(len(enccommon.WrappedKeyPads), "wfkpad")]
+	doc, _, err := enccommon.RefDocumentPad(s, pt, keyName, alg.ID, cphID, variant, pad)
 	if err != nil {
 		s.Fail("infra-refencode", err.Error())
 		return
